@@ -39,9 +39,10 @@ import (
 
 // Chain is one node: the real application, its database and its fake execution engine.
 type Chain struct {
-	ChainID string
-	KR      *Keyring
-	NodeVal int // index into KR.Vals of the validator whose key this node signs with
+	InitTime *time.Time // genesis time handed to InitChain (default: Genesis)
+	ChainID  string
+	KR       *Keyring
+	NodeVal  int // index into KR.Vals of the validator whose key this node signs with
 
 	App   *app.App
 	DB    dbm.DB
@@ -180,8 +181,12 @@ func (c *Chain) InitChain(appState map[string]json.RawMessage, vals []abci.Valid
 	if cp == nil {
 		cp = DefaultConsensusParams()
 	}
+	initTime := c.Genesis
+	if c.InitTime != nil { // a chain started from an exported state: its genesis time is the restart time, not the old chain's
+		initTime = *c.InitTime
+	}
 	res, err := c.App.InitChain(&abci.RequestInitChain{
-		Time: c.Genesis, ChainId: c.ChainID, ConsensusParams: cp, Validators: vals,
+		Time: initTime, ChainId: c.ChainID, ConsensusParams: cp, Validators: vals,
 		AppStateBytes: bz, InitialHeight: initialHeight,
 	})
 	if err != nil {
